@@ -11,14 +11,15 @@ HALF = 0.125
 
 FEATURES = ('windows', 'timeouts', 'nesting', 'forever', 'failures',
             'critical', 'never', 'slow_cleanup', 'slow_handlers', 'stalls',
-            'verbose', 'coro', 'zero_jobs', 'sd_none', 'never_handler')
+            'verbose', 'coro', 'zero_jobs', 'sd_none', 'never_handler',
+            'inspect')
 
 # probability that a feature is enabled at all in a run
 BASE_PROFILE = {
     'windows': 0.45, 'timeouts': 0.35, 'nesting': 0.5, 'forever': 0.4,
     'failures': 0.45, 'critical': 0.35, 'never': 0.3, 'slow_cleanup': 0.25,
     'slow_handlers': 0.3, 'stalls': 0.2, 'verbose': 0.15, 'coro': 0.4,
-    'zero_jobs': 0.35, 'sd_none': 0.2, 'never_handler': 0.1,
+    'zero_jobs': 0.35, 'sd_none': 0.2, 'never_handler': 0.1, 'inspect': 0.2,
     'max_jobs': 14, 'max_depth': 3, 'pure_top': 0.3,
 }
 
@@ -76,6 +77,12 @@ class _Gen:
                 "cleanup": [], "handler": []}
         if feat['failures'] and rng.random() < self.p_fail:
             node["outcome"] = "exc"
+        if feat['inspect'] and rng.random() < 0.3:
+            step = ["inspect", rng.choice(("parent", "parent", "top")) + ":"
+                    + rng.choice(("list", "cycles", "topo", "stats",
+                                  "exits"))]
+            node["script"].insert(rng.randrange(len(node["script"]) + 1),
+                                  step)
         if feat['slow_cleanup'] and rng.random() < 0.5:
             node["cleanup"] = rng.choice(
                 ([["sleep", 0.25]], [["sleep", 0.5]], [["yield", 2]],
